@@ -29,14 +29,21 @@ CROSS = {"C01-C": ["C08"], "C08-C": ["C02", "C06"], "C16-C": ["C04"], "C05-C": [
          # round 10 (S, T)
          "C01-T": ["C10"], "C11-S": ["C13"], "C12-S": ["C13"], "C16-S": ["C04", "C10"], "C15-S": ["C19"], "C19-S": ["C15"],
          # round 11 (U, V)
-         "C07-V": ["C04", "C19"], "C09-U": ["C08", "C01"], "C09-V": ["C08", "C01"], "C16-V": ["C04", "C10"], "C01-V": ["C08"]}
+         "C07-V": ["C04", "C19"], "C09-U": ["C08", "C01"], "C09-V": ["C08", "C01"], "C16-V": ["C04", "C10"], "C01-V": ["C08"],
+         # round 12 (W, X)
+         "C08-X": ["C15", "C19"]}
 THOROUGH_ONLY = {("C16-B", "C16"), ("C16-D", "C16"), ("C02-P", "C02")}   # C02-P: the NDEBUG build of the MPI leg
-NOT_EXPECTED = {"C06-N", "C09-N", "C09-P", "C06-T", "C06-U"}   # kept with meta.json "expected": "not detected" (BUILD_REPORT.md, rounds 7, 8, 10, 11; C06-T and C06-U repeat C06-N)
+# kept with meta.json "expected": "not detected" (BUILD_REPORT.md, rounds 7, 8, 10, 11, 12; C06-T, C06-U and C06-W repeat C06-N; C04-X = C16-W needs a grid whose
+# dimension differs from the integrand's, which the library's own assert rejects; C19-X only changes which rounding of 1/n the uniform default uses; C20-X leaves the
+# returned checkpoints identical and only delays the file of one mode - the growth pass of Trace_C20 prints a NOTE)
+NOT_EXPECTED = {"C06-N", "C09-N", "C09-P", "C06-T", "C06-U", "C06-W", "C04-X", "C16-W", "C19-X", "C20-X"}
 # C19-E / C19-F change the refinement functions themselves (the subject of C08 / C07),
 # which C19 takes as given (it checks that each iteration uses the refinement of the previous result)
 OWN_BY_OTHER = {"C19-E": "C08", "C19-F": "C07", "C02-H": "C14", "C19-N": "C08", "C04-N": "C12", "C20-M": "C18",
                 # C01-T: the discards of mpi_multi_channel (C04's subject); C09-S / C09-T: the refinement re-enables a disabled channel resp. produces NaN weights (C08's subject)
-                "C01-T": "C04", "C09-S": "C08", "C09-T": "C08"}   # C02-H: a compensation slot shared with the integral (C14's subject)
+                "C01-T": "C04", "C09-S": "C08", "C09-T": "C08",
+                # C01-X: the MPI datatype of long double (C04); C08-X: precision of a zero-result checkpoint's text (C05); C11-X: a compensation slot shared between bins (C14)
+                "C01-X": "C04", "C08-X": "C05", "C11-X": "C14"}   # C02-H: a compensation slot shared with the integral (C14's subject)
 PREFIX = {"5240915": ["C15"], "ac56e79": ["C15"], "bb5946d": ["C12"], "08987f4": ["C09"], "47037e0": ["C07"], "dfee5c7": ["C08"],
           "84d9fba": ["C05", "C03"], "4d363c6": ["C18"], "d91dcdf": ["C11"], "1c25063": ["C07"], "7c3b427": ["C05", "C03"]}
 
